@@ -41,7 +41,8 @@ func TestPipelinedTxn(t *testing.T) {
 	sim.EnableFailpoints()
 	pool := []string{"a", "b", "c", "d", "e", "f", "g", "h"}
 	var closing sync.WaitGroup
-	defer closing.Wait() // the process must not exit before the clusters are closed (each leaves a temp directory otherwise)
+	defer closing.Wait()               // the process must not exit before the clusters are closed (each leaves a temp directory otherwise)
+	pending := make(chan struct{}, 48) // clusters waiting out their 5 s close; each keeps about 60 MB alive
 	rapid.Check(t, func(t *rapid.T) {
 		nKeys := rapid.IntRange(3, 8).Draw(t, "nkeys")
 		keys := append([]string{}, rapid.Permutation(pool).Draw(t, "keys")[:nKeys]...)
@@ -92,11 +93,12 @@ func TestPipelinedTxn(t *testing.T) {
 		if err != nil {
 			t.Fatalf("VERIF-INFRA: %v", err)
 		}
-		// closing a store waits for its background goroutines, and the range resolution of a pipelined transaction
-		// ends with a 5 s grace sleep before its last broadcast: close in the background
+		// closing a client waits for its background goroutines, and the range resolution of a pipelined transaction
+		// ends with a 5 s grace sleep before its last broadcast: close in the background, at most 48 at a time
 		defer func() {
 			closing.Add(1)
-			go func() { defer closing.Done(); cl.Close() }()
+			pending <- struct{}{}
+			go func() { defer closing.Done(); cl.Close(); <-pending }()
 		}()
 		ctx := context.Background()
 		if len(initial) > 0 {
